@@ -5,6 +5,7 @@
  *   hs_demo flush      : br_ssl_engine_flush(force=1) while a record is being received (shared buffer)
  *   hs_demo flush2     : forced empty record on an idle shared buffer, then incoming bytes before it is sent
  *   hs_demo mfln       : server context reused after a connection that negotiated max_fragment_length
+ *   hs_demo reneg [c|s] [p] : renegotiation requested while the client's/server's written bytes are still unflushed (p: requested by the peer's application)
  *   hs_demo closehang  : br_sslio_close with a failing low_write after the peer's close_notify
  *
  * Build: gcc -I/repo/inc -I/repo/samples hs_demo.c <libbearssl.a>
@@ -162,6 +163,39 @@ int main(int argc, char **argv)
 		int ok = handshake();
 		printf("connection 2: ok=%d client err=%d server err=%d server max_frag_len=%u\n", ok, br_ssl_engine_last_error(&cc.eng), br_ssl_engine_last_error(&sc.eng), (unsigned)sc.eng.max_frag_len);
 		if (!ok || sc.eng.max_frag_len != 16384) { printf("FINDING: max_fragment_length state of the previous connection survived br_ssl_server_reset\n"); return 1; }
+		printf("OK\n");
+		return 0;
+	}
+	if (!strcmp(mode, "reneg")) {
+		int server_side = argc > 2 && argv[2][0] == 's';
+		client_setup(sizeof cbuf, 1); server_setup(sizeof sbuf, 1);
+		if (!handshake()) { printf("handshake failed\n"); return 2; }
+		br_ssl_engine_context *a = server_side ? &sc.eng : &cc.eng, *b = server_side ? &cc.eng : &sc.eng;
+		/* the application writes 100 bytes and does NOT flush, then asks for a renegotiation */
+		unsigned char msg[100], got[400]; size_t l, ngot = 0; memset(msg, 'R', sizeof msg);
+		unsigned char *p = br_ssl_engine_sendapp_buf(a, &l); if (!p || l < sizeof msg) return 2;
+		memcpy(p, msg, sizeof msg); br_ssl_engine_sendapp_ack(a, sizeof msg);
+		/* third variant ("p"): the PEER's application asks for the renegotiation while our bytes are unflushed */
+		int peer_req = (argc > 2 && argv[2][0] == 'p') || (argc > 3 && argv[3][0] == 'p');
+		int r = br_ssl_engine_renegotiate(peer_req ? b : a);
+		printf("renegotiate() by the %s returned %d\n", peer_req ? "peer" : "writer", r);
+		for (int i = 0; i < 100000; i++) {
+			size_t k = pump(a, b, (size_t)-1) + pump(b, a, (size_t)-1);
+			unsigned char *q = br_ssl_engine_recvapp_buf(b, &l);
+			if (q) { if (ngot + l > sizeof got) l = sizeof got - ngot; memcpy(got + ngot, q, l); ngot += l; br_ssl_engine_recvapp_ack(b, l); k++; }
+			if (!k) {
+				/* nothing moves any more: a well-behaved application flushes what it wrote (documented way to push data out) */
+				if (i < 50000) { i = 50000; br_ssl_engine_flush(a, 0); continue; }
+				break;
+			}
+		}
+		int ea = br_ssl_engine_last_error(a), eb = br_ssl_engine_last_error(b);
+		unsigned sa = br_ssl_engine_current_state(a), sb = br_ssl_engine_current_state(b);
+		printf("after renegotiation request: requester err=%d state=0x%02x, peer err=%d state=0x%02x, peer application received %zu bytes\n", ea, sa, eb, sb, ngot);
+		if (ea || eb || ngot != sizeof msg || memcmp(got, msg, sizeof msg) != 0 || !(sa & BR_SSL_SENDAPP) || !(sb & BR_SSL_SENDAPP)) {
+			printf("FINDING: renegotiation requested with unflushed application data: the bytes written before the request did not reach the peer intact / the connection did not survive\n");
+			return 1;
+		}
 		printf("OK\n");
 		return 0;
 	}
